@@ -36,6 +36,16 @@ def layer_forward(a):
     adjacency = mk_matrix(a['adjacency'])
     features = _features(a['features'])
     layer = _layer(a)
+    if a.get('prior_factors') and sparse.issparse(adjacency) and adjacency.nnz:
+        # the SAME layer applied first to the SAME adjacency object carrying other weights (entry k multiplied by factor k), the weights
+        # then restored in place: the forward pass that follows is a pass on the graph the object now holds
+        orig = adjacency.data.copy()
+        adjacency.data *= np.resize(np.array(a['prior_factors'], dtype=float), len(orig))
+        try:
+            layer(adjacency, features)
+        except Exception:       # noqa
+            pass
+        adjacency.data[:] = orig
     before = (adjacency.indptr.copy(), adjacency.indices.copy(), adjacency.data.copy()) if sparse.issparse(adjacency) else None
     out = layer(adjacency, features)
     res = {'output': np.asarray(out).tolist(), 'embedding': np.asarray(layer.embedding).tolist()}
